@@ -749,3 +749,105 @@ Proof.
       * rewrite Hh. assumption.
       * rewrite Hs. assumption.
 Qed.
+
+Lemma esum_unique_bound : forall l,
+  (forall i j ei ej, nth_error l i = Some ei -> nth_error l j = Some ej ->
+                     runner_pc ei = true -> runner_pc ej = true -> i = j) -> esum l <= 6.
+Proof.
+  induction l as [|h t IH]; intros U; simpl; [lia|].
+  destruct (Nat.eq_dec (erank h) 0) as [Hz|Hnz].
+  - rewrite Hz. apply IH. intros i j ei ej Hi Hj Ri Rj.
+    assert (S i = S j) by (eapply U; eauto). lia.
+  - assert (esum t = 0).
+    { apply esum_zero. intros j e Hj. destruct (Nat.eq_dec (erank e) 0); [assumption|exfalso].
+      assert (0 = S j) by (eapply (U 0 (S j) h e); simpl; eauto using erank_runner). discriminate. }
+    destruct h; simpl in *; lia.
+Qed.
+
+Lemma end_rank_bound : forall max s i, reachable V1 max s -> end_rank s i <= 15.
+Proof.
+  intros max s i R. pose proof (reach_once _ _ R) as (K1 & K2 & _).
+  pose proof (esum_unique_bound _ K1) as Hb. unfold end_rank.
+  assert (own_rank (nth_error (ends s) i) <= 2) by (destruct (nth_error (ends s) i) as [[]|]; simpl; lia).
+  assert (col_rank (col s) <= 5) by (destruct (col s); simpl; lia).
+  destruct (once s) eqn:Eo; simpl; try lia.
+  assert (esum (ends s) = 0).
+  { apply esum_zero. intros j ej Hj. destruct (Nat.eq_dec (erank ej) 0); [assumption|exfalso].
+    pose proof (K2 _ _ Hj (erank_runner _ n)). congruence. }
+  lia.
+Qed.
+
+(* ---------------------------------------------------------------- V0: the three failures *)
+
+(* End twice, sequentially: the second close(melt) panics *)
+Definition trace_double_end : list label :=
+  [End_call; End_melt 0; End_lock 0; End_closechan 0; End_closepeers 0; End_unlock 0; End_call; End_melt 1].
+
+Lemma v0_double_end_panics : exists s, run V0 (init 1) trace_double_end = Some s /\ panicked s = true
+  /\ nth_error (ends s) 0 = Some E_Done.
+Proof. eexists. split; [vm_compute; reflexivity|]. split; reflexivity. Qed.
+
+(* Max = 2; the spare goes stale, is replaced, the replacement goes stale too: the channel is
+   full of closed peers and the fourth Collect blocks in the send while holding collectLock.
+   (Collect = lock, check, catch, push, send, unlock, return; Pop = call, recv, check.) *)
+Definition collect_ok : list label := [Col_lock; Col_check; Catch_ok; Col_push; Col_send; Col_unlock; Col_return].
+Definition trace_deadlock : list label :=
+  collect_ok ++ [Pop_call; Pop_recv 0; Pop_check 0] ++ collect_ok ++ [Peer_closes 1] ++ collect_ok ++ [Peer_closes 2]
+  ++ [Col_lock; Col_check; Catch_ok; Col_push] ++ [End_call; End_melt 0].
+
+Definition no_pop (l : label) : bool :=
+  match l with Pop_call | Pop_recv _ | Pop_check _ => false | _ => true end.
+
+Local Arguments nth_error : simpl never.
+
+Definition stuck_shape (s : state) : Prop :=
+  (exists p, col s = C_Sending p) /\ lock s = Some T_Col /\ length (chan s) = cap s /\ chan_closed s = false
+  /\ nth_error (ends s) 0 = Some E_Melted /\ inv_lock s.
+
+Lemma stuck_shape_step : forall s l s', stuck_shape s -> no_pop l = true -> step V0 s l = Some s' ->
+  stuck_shape s'.
+Proof.
+  intros s l s' ((p & Hc) & Hl & Hch & Hcc & He & IL) Hn H.
+  assert (IL' : inv_lock s') by (eapply inv_lock_step; eauto).
+  destruct IL as [_ Le].
+  assert (Hset : forall i e en, nth_error (ends s) i = Some e -> e <> E_Melted ->
+            nth_error (set_nth i en (ends s)) 0 = Some E_Melted).
+  { intros i e en Hi Hne. rewrite nth_error_set_nth. destruct (Nat.eqb_spec 0 i); [subst; congruence|assumption]. }
+  destruct l; try discriminate; step_inv H; unfold stuck_shape; cbn.
+  all: try (apply Nat.ltb_lt in Heqb0; exfalso; lia).
+  all: try (exfalso; match goal with Hx : nth_error (ends ?s0) ?i = Some ?e |- _ =>
+              assert (lock s0 = Some (T_End i)) by (apply (Le _ _ Hx); reflexivity); congruence end).
+  all: repeat split; eauto; try congruence; try (eapply Hset; eauto; discriminate);
+       try exact (proj1 IL'); try exact (proj2 IL').
+  - rewrite nth_error_app1; auto. apply nth_error_Some. congruence.
+Qed.
+
+Lemma stuck_forever : forall tr s s', stuck_shape s -> forallb no_pop tr = true -> run V0 s tr = Some s' ->
+  stuck_shape s'.
+Proof.
+  induction tr as [|l tr IH]; intros s s' Hs Hn Hr; simpl in *.
+  - inversion Hr; subst; assumption.
+  - apply andb_prop in Hn. destruct Hn as [Hl Hn]. destruct (step V0 s l) eqn:Es; [|discriminate].
+    apply (IH s0 s'); auto. eapply stuck_shape_step; eauto.
+Qed.
+
+(* The reachable state after trace_deadlock: End has begun (melt closed) and is waiting for the lock,
+   the collector holds the lock and waits for room in the channel. Unless some Pop happens, no
+   continuation whatsoever lets that End return. *)
+Lemma v0_deadlock : exists s, run V0 (init 2) trace_deadlock = Some s /\ panicked s = false /\
+  nth_error (ends s) 0 = Some E_Melted /\
+  (forall l, helpful l = true -> step V0 s l = None) /\
+  (forall tr s', forallb no_pop tr = true -> run V0 s tr = Some s' -> nth_error (ends s') 0 = Some E_Melted).
+Proof.
+  destruct (run V0 (init 2) trace_deadlock) as [s0|] eqn:E; [|vm_compute in E; discriminate].
+  assert (R : reachable V0 2 s0) by (eapply run_reachable; [apply reach_init|exact E]).
+  assert (S0 : stuck_shape s0).
+  { vm_compute in E. inversion E; subst. unfold stuck_shape. cbn.
+    repeat split; eauto. apply (reach_lock _ _ _ R). }
+  exists s0. split; [reflexivity|]. split; [vm_compute in E; inversion E; reflexivity|].
+  split; [apply S0|]. split.
+  - intros l Hl. vm_compute in E. inversion E; subst. destruct l; try discriminate; try reflexivity;
+      unfold step; cbn; repeat (destruct i as [|i]; try reflexivity).
+  - intros tr s' Hn Hr. apply (stuck_forever _ _ _ S0 Hn Hr).
+Qed.
+
